@@ -486,7 +486,7 @@ func (d *Drv) Sweep(deep bool) {
 		d.viol("C02", "alive-count", "Filter0 Count()=%d, model alive %d", cnt, m.NAlive)
 	}
 	d.Stat.LockChecks++
-	if d.W.IsLocked() != (m.Locks > 0) {
+	if !d.ForceUnsafe && d.W.IsLocked() != (m.Locks > 0) { // the ID-based twin does not mirror query ops
 		d.viol("C07", "lock-state", "IsLocked()=%v with %d open queries in the model", d.W.IsLocked(), m.Locks)
 	}
 }
@@ -544,6 +544,9 @@ func (d *Drv) deepEntity(id EID, h ecs.Entity, st *MEnt) {
 			if u.Types[c].IsRel {
 				if tg := tm.GetRelation(h, j); tg != d.h(st.Tgt[c]) {
 					d.viol("C14", "mapn-relation", "EID %d Map%d%v.GetRelation(%d)=%v, model %v", id, len(cs), names(cs), j, tg, d.h(st.Tgt[c]))
+				}
+				if tg := tm.GetRelationUnchecked(h, j); tg != d.h(st.Tgt[c]) {
+					d.viol("C14", "mapn-relation", "EID %d Map%d%v.GetRelationUnchecked(%d)=%v, model %v", id, len(cs), names(cs), j, tg, d.h(st.Tgt[c]))
 				}
 			}
 		}
